@@ -294,14 +294,18 @@ def make_model(kind, metric, max_k, min_k):
     return B.unsup_mod.UnsupervisedOPF(min_k=min_k, max_k=max_k, distance=metric)
 
 
-def execute(op, w, scratch, tag):
-    """Apply one op to world ``w``; returns the raw result."""
+def execute(op, w, scratch, tag, dealias=False):
+    """Apply one op to world ``w``; returns the raw result.  With ``dealias`` an array that
+    the call receives twice (same object as two arguments) is passed as two equal copies:
+    results may depend on argument *values* only, not on object identity."""
     kind = op[0]
     if kind == "dist":
         _, name, via, a, b = op
         fn = B.opf_mod.OPF(distance=name).distance_fn if via == "model" else B.distance.DISTANCES[name]
         x = w.get(a)
         y = x if a == b else w.get(b)
+        if dealias and a == b:
+            y = np.array(x)
         if via == "kw_xy":
             return fn(x=x, y=y)  # the same call, arguments passed by keyword
         if via == "kw_y":
@@ -316,12 +320,15 @@ def execute(op, w, scratch, tag):
         max_k = max(1, min(max_k, n - 1))
         min_k = max(1, min(min_k, max_k))
         m = make_model(mkind, metric, max_k, min_k)
+        X2, Y2 = w.mats[k2], w.labs[k2]
+        if dealias and k2 == k:
+            X2, Y2 = np.array(X2), np.array(Y2)
         if mkind == "supervised":
             m.fit(X, Y)
         elif mkind == "semi":
-            m.fit(X, Y, w.mats[k2])
+            m.fit(X, Y, X2)
         elif mkind == "knn":
-            m.fit(X, Y, w.mats[k2], w.labs[k2])
+            m.fit(X, Y, X2, Y2)
         else:
             m.fit(X, Y if use_labels else None)
             if use_labels:
@@ -330,7 +337,7 @@ def execute(op, w, scratch, tag):
             return m
         if kind == "getdist":
             return (m.get_distances(), m.get_distances(normalize=True))
-        p = m.predict(w.mats[k2])
+        p = m.predict(X2 if dealias and k2 == k else w.mats[k2])
         return (m, p)
     if kind == "prefit":
         _, mkind, k, max_k, min_k, normalize = op
@@ -380,7 +387,9 @@ def execute(op, w, scratch, tag):
         path = os.path.join(scratch, "pre_%s.txt" % tag)
         B.general.pre_compute_distance(w.mats[k % len(w.mats)], path, metric)
         with open(path, "rb") as f:
-            return f.read()
+            raw = f.read()
+        # ... and a fresh model built from that file name must see exactly this matrix
+        return (raw, B.opf_mod.OPF(pre_computed_distance=path).pre_distances)
     if kind == "prune":
         _, metric, k, k2, iters = op
         k %= len(w.mats)
@@ -451,9 +460,9 @@ def op_label(op):
     return (op[0],)
 
 
-def attempt(op, w, scratch, tag):
+def attempt(op, w, scratch, tag, dealias=False):
     try:
-        return True, execute(op, w, scratch, tag), None
+        return True, execute(op, w, scratch, tag, dealias), None
     except (Exception, SimTimeout) as exc:  # noqa: BLE001
         if library_site(exc, B.REPO_PKG) is None:
             raise
@@ -570,7 +579,7 @@ def run_case(case):
             if op[0] == "dist" and op[2] in ("kw_xy", "kw_y"):
                 twin_op = [op[0], op[1], "registry"] + op[3:]  # the same argument values, passed positionally
                 bump(out.probes, "metric_called_with_keyword_arguments")
-            ok2, res2, exc2 = attempt(twin_op, twin, scratch, "twin")
+            ok2, res2, exc2 = attempt(twin_op, twin, scratch, "twin%d" % k, dealias=True)
             if ok != ok2 or (not ok and type(exc).__name__ != type(exc2).__name__):
                 e = exc if not ok else exc2
                 v = raised_violation(e, B.REPO_PKG, "op #%d %s on the %s world only" % (k, op, "live" if not ok else "pristine"), extra_clause="-history-dependent")
